@@ -1,3 +1,4 @@
+import Std.Data.HashMap
 import SV.Driver.Util
 import SV.Model.LazyRead
 /-
@@ -55,6 +56,10 @@ structure St where
   ls : LState := { cache := Cache.empty }
   tar : List TarEntry := []
   view : Option View := none
+  /-- `chunkTopIndex` of every TOC entry, computed once per layer -/
+  tops : Option (List Nat) := none
+  /-- TOC index of every chunk, computed once per layer -/
+  tocIdx : Option (Std.HashMap ChunkId Nat) := none
 
 def St.file? (s : St) (fi : Nat) : Option DFile := s.files.find? (·.info.id = fi)
 
@@ -66,12 +71,27 @@ def St.trueChunk (s : St) (id : ChunkId) : Bytes :=
 def St.allIds (s : St) : List ChunkId :=
   s.files.flatMap fun f => f.info.table.map fun c => ⟨f.info.id, c.off, c.size⟩
 
+def buildTocIdx (toc : List TocEnt) : Std.HashMap ChunkId Nat :=
+  let rec go : List TocEnt → Nat → Std.HashMap ChunkId Nat → Std.HashMap ChunkId Nat
+    | [], _, m => m
+    | e :: es, i, m =>
+      let id : ChunkId := ⟨e.file, e.coff, e.csize⟩
+      go es (i + 1) (if e.data ∧ e.csize > 0 ∧ !m.contains id then m.insert id i else m)
+  go toc 0 {}
+
+/-- fill the per-layer tables (idempotent) -/
+def St.prepare (s : St) : St :=
+  let s := match s.tops with
+    | some _ => s
+    | none => { s with tops := some (topIndices s.toc) }
+  match s.tocIdx with
+  | some _ => s
+  | none => { s with tocIdx := some (buildTocIdx s.toc) }
+
 def St.tocIndex (s : St) (id : ChunkId) : Option Nat :=
-  let rec go : List TocEnt → Nat → Option Nat
-    | [], _ => none
-    | e :: es, i => if e.data ∧ e.file = id.file ∧ e.coff = id.off ∧ e.csize = id.size ∧ e.csize > 0 then some i
-                    else go es (i + 1)
-  go s.toc 0
+  match s.tocIdx with
+  | some m => m[id]?
+  | none => none
 
 def St.env (s : St) : Env where
   verify := fun id b => if s.verify then b == s.trueChunk id else true
@@ -79,8 +99,15 @@ def St.env (s : St) : Env where
     match s.tocIndex id with
     | none => none
     | some ti => match s.variant with
-      | .mem => preRunMem s.toc ti
+      | .mem => preRunMemWith (s.tops.getD []) s.toc ti
       | .db => preRunDb s.toc ti
+
+/-- The model's cache is a function; between operations the driver keeps it as a hash map over the
+layer's chunk ids so that lookups do not walk a chain of closures. -/
+def St.normalize (s : St) (c : Cache) : Cache :=
+  let m : Std.HashMap ChunkId Bytes :=
+    s.allIds.foldl (fun m id => match c id with | some d => m.insert id d | none => m) {}
+  fun id => m[id]?
 
 def St.under (s : St) (ok : Bool) : Under :=
   if ok then fun id => some (s.trueChunk id) else fun _ => none
@@ -162,7 +189,7 @@ def step (s : St) : List String → St × String
     match parseNat? fi, parseNat? coff, parseNat? csize, parseNat? offset, parseNat? inner with
     | some fi, some coff, some csize, some offset, some inner =>
       if d ≠ "0" ∧ d ≠ "1" then (s, "bad-op") else
-      ({ s with toc := s.toc ++ [⟨d = "1", fi, coff, csize, offset, inner⟩] }, "ok")
+      ({ s with toc := s.toc ++ [⟨d = "1", fi, coff, csize, offset, inner⟩], tops := none, tocIdx := none }, "ok")
     | _, _, _, _, _ => (s, "bad-op")
   | ["file", fi, size, kind, salt, first, tbl] =>
     match parseNat? fi, parseNat? size, parseNat? kind, parseNat? salt, parseNat? first, parseChunks? tbl with
@@ -182,12 +209,14 @@ def step (s : St) : List String → St × String
         | none => (s, "none")
     | _, _ => (s, "bad-op")
   | ["read", fi, off, n, u] =>
+    let s := s.prepare
     match parseNat? fi, parseNat? off, parseNat? n, parseU? u with
     | some fi, some off, some n, some u =>
       match s.file? fi with
       | none => (s, "bad-op")
       | some f =>
         let (c', r) := fileReadAt s.env (s.under u) f.info s.ls.cache off n
+        let c' := s.normalize c'
         let s' := { s with ls := { s.ls with cache := c' } }
         match r with
         | .ok b => (s', s!"ok k={b.length} sum={fnv b} stored={showIds (s.changed s.ls.cache c')}")
@@ -195,30 +224,32 @@ def step (s : St) : List String → St × String
         | .diverge => (s', "diverge")
     | _, _, _, _ => (s, "bad-op")
   | ["cachefiles", lim, u] =>
+    let s := s.prepare
     match (if lim = "all" then some none else (parseNat? lim).map some), parseU? u with
     | some lim, some u =>
       let filter : Nat → Bool := match lim with
         | none => fun _ => true
         | some l => fun o => decide (o < l)
       let (c', ok) := cacheFiltered s.env (s.under u) filter (s.files.map (·.info)) s.ls.cache
+      let c' := s.normalize c'
       let s' := { s with ls := { s.ls with cache := c' } }
       (s', if ok then s!"ok stored={showIds (s.changed s.ls.cache c')}" else "err")
     | _, _ => (s, "bad-op")
   | ["evict", fi, off, size] =>
     match parseNat? fi, parseNat? off, parseNat? size with
     | some fi, some off, some size =>
-      ({ s with ls := { s.ls with cache := s.ls.cache.evict ⟨fi, off, size⟩ } }, "ok")
+      ({ s with ls := { s.ls with cache := s.normalize (s.ls.cache.evict ⟨fi, off, size⟩) } }, "ok")
     | _, _, _ => (s, "bad-op")
   | ["trunc", fi, off, size, k] =>
     match parseNat? fi, parseNat? off, parseNat? size, parseNat? k with
     | some fi, some off, some size, some k =>
-      ({ s with ls := { s.ls with cache := s.ls.cache.truncate ⟨fi, off, size⟩ k } }, "ok")
+      ({ s with ls := { s.ls with cache := s.normalize (s.ls.cache.truncate ⟨fi, off, size⟩ k) } }, "ok")
     | _, _, _, _ => (s, "bad-op")
   | ["setcache", ids] =>
     match parseIds? ids with
     | some ids =>
-      let c : Cache := ids.foldl (fun c id => c.put id (s.trueChunk id)) Cache.empty
-      ({ s with ls := { s.ls with cache := c } }, "ok")
+      let m : Std.HashMap ChunkId Bytes := ids.foldl (fun m id => m.insert id (s.trueChunk id)) {}
+      ({ s with ls := { s.ls with cache := fun id => m[id]? } }, "ok")
     | none => (s, "bad-op")
   | ["tar.reset"] => ({ s with tar := [], view := none }, "ok")
   | ["tent", ty, name, mode, uid, gid, size, link, maj, min, idx, xs] =>
@@ -265,11 +296,13 @@ def step (s : St) : List String → St × String
         | none => (s, "nodata")
     | _, _ => (s, "bad-op")
   | ["prefetch", cfg, threshold, chunk, pchunk, blobok, u] =>
+    let s := s.prepare
     match parseNat? cfg, parseNat? threshold, parseNat? chunk, parseNat? pchunk, parseU? u with
     | some cfg, some threshold, some chunk, some pchunk, some u =>
       if blobok ≠ "0" ∧ blobok ≠ "1" then (s, "bad-op") else
       let ncalls := s.ls.cacheCalls.length
       let (ls', r) := prefetch s.layer s.env ⟨chunk, pchunk⟩ cfg threshold (blobok = "1") (s.under u) s.ls
+      let ls' := { ls' with cache := s.normalize ls'.cache }
       let call := match ls'.cacheCalls.drop ncalls with
         | (o, sz) :: _ => s!"{o}:{sz}"
         | [] => "none"
@@ -279,9 +312,11 @@ def step (s : St) : List String → St × String
         s!"{if r = .ok then "ok" else "failed"} waiter={b2s ls'.waiterClosed} call={call}{stored}")
     | _, _, _, _, _ => (s, "bad-op")
   | ["bgfetch", u] =>
+    let s := s.prepare
     match parseU? u with
     | some u =>
       let (ls', r) := backgroundFetch s.layer s.env (s.under u) s.ls
+      let ls' := { ls' with cache := s.normalize ls'.cache }
       let stored := if r = .ok then s!" stored={showIds (s.changed s.ls.cache ls'.cache)}" else ""
       ({ s with ls := ls' }, s!"{if r = .ok then "ok" else "failed"}{stored}")
     | none => (s, "bad-op")
